@@ -23,14 +23,14 @@ REGISTRY = {
     "C09": ("model_checking", ["expanding", "scale"]),
     "C10": ("model_checking", ["expanding", "scale"]),
     "C11": ("fault_enumeration", ["ondisk", "scale"]),
-    "C12": ("model_checking", ["bloomfam", "countmin", "scale"]),
-    "C13": ("model_checking", ["bloomfam", "countmin", "compat"]),
+    "C12": ("model_checking", ["bloomfam", "countmin", "scale", "saturation"]),
+    "C13": ("model_checking", ["bloomfam", "countmin", "compat", "saturation"]),
     "C14": ("model_checking", ["bloomfam", "countmin", "qf", "cuckoo", "expanding", "scale"]),
     "C16": ("model_checking", ["bloomfam", "countmin", "saturation"]),
     "C15": ("model_checking", ["cuckoo", "scale"]),
     "C17": ("model_checking", ["countmin", "scale"]),
     "C18": ("model_checking", ["hashes"]),
-    "C19": ("model_checking", ["bloomfam", "countmin", "qf", "cuckoo", "expanding", "scale"]),
+    "C19": ("model_checking", ["bloomfam", "countmin", "qf", "cuckoo", "expanding", "scale", "saturation"]),
     "C20": ("model_checking", ["bitarray", "scale"]),
 }
 
